@@ -80,6 +80,43 @@ theorem why_cause_kept (c : Cfg) (hwf : c.wf = true) (evs more : List EvB) (st s
   · exact hp.trans (List.prefix_append _ _)
   · exact hp.trans (List.prefix_append _ _)
 
+/-- the timeout message always carries a number, and that much time has passed since the run began (`"TIMED OUT after
+    Nones"` is never said; `ExitInv.failTMeans`) -/
+theorem why_timedOut_means (c : Cfg) (hwf : c.wf = true) (evs : List EvB) (st : StB)
+    (h : acceptB c StB.init evs = some st) (s : Nat) (t : Option Nat) (hw : st.why c s = .timedOut t) :
+    ∃ T, t = some T ∧ c.timeout s = some T ∧ st.tbegin s + T ≤ st.a.now := by
+  have hE := exitInv_reach c hwf evs st h
+  have ht := why_timedOut_value c st s t hw
+  have hf : st.failT s = true := by
+    unfold StB.why whyOf at hw
+    cases hT : st.failT s <;> cases hC : st.failC s <;> simp [hT, hC] at hw ⊢
+  obtain ⟨T, h1, h2⟩ := hE.failTMeans s hf
+  exact ⟨T, by rw [ht, h1], h1, h2⟩
+
+/-- the critical-failure message is only given when a critical job of the scheduler has raised (`ExitInv.failCMeans`) -/
+theorem why_critical_means (c : Cfg) (hwf : c.wf = true) (evs : List EvB) (st : StB)
+    (h : acceptB c StB.init evs = some st) (s : Nat) (hw : st.why c s = .critical) :
+    ∃ k ∈ c.children s, c.critical k = true ∧ ∃ ex, st.a.ph k = .done (.exc ex) := by
+  have hE := exitInv_reach c hwf evs st h
+  have hf : st.failC s = true := by
+    unfold StB.why whyOf at hw
+    cases hT : st.failT s <;> cases hC : st.failC s <;> simp [hT, hC] at hw ⊢
+  exact hE.failCMeans s hf
+
+/-- a scheduler whose run has not begun, or is still in its main loop, says `"FINE"` (`InvB.diagClear`) -/
+theorem why_fine_in_loop (c : Cfg) (hwf : c.wf = true) (evs : List EvB) (st : StB)
+    (h : acceptB c StB.init evs = some st) (s : Nat) (hp : st.pcB s = .notBegun ∨ st.pcB s = .loop) :
+    st.why c s = .fine := by
+  have hB := invB_reach c hwf evs st h
+  have hne : st.pcB s ≠ .over := by rcases hp with hp | hp <;> rw [hp] <;> simp
+  have hd := hB.diagClear s hne
+  have hx : (st.pcB s).exitOf = none := by rcases hp with hp | hp <;> rw [hp] <;> rfl
+  unfold StB.why whyOf
+  cases hT : st.failT s <;> cases hC : st.failC s <;> simp
+  all_goals first
+    | (have := hd.2 hT; rw [hx] at this; simp at this)
+    | (have := hd.1 hC; rw [hx] at this; simp at this)
+
 /-! ### non-vacuity: the expiry of `tmoCfg` (ExitB) says "TIMED OUT after 3s" -/
 example : (acceptB tmoCfg StB.init tmoEvs).map (fun st => st.why tmoCfg 0) = some (.timedOut (some 3)) := by decide
 example : (acceptB tmoCfg StB.init [.runBegin, .grant 1]).map (fun st => st.why tmoCfg 0) = some .fine := by decide
